@@ -51,6 +51,20 @@ def reset_pyhf(backend, optimizer=None):
     pyhf.set_backend(backend, custom_optimizer=optimizer, default=True)
 
 
+def _percentile_compat():
+    """environment repair for concrete replays only: the installed numpy (2.x) no longer accepts
+    np.percentile(..., interpolation=...), which pyhf's numpy backend passes; same semantics via method="""
+    from pyhf.tensor.numpy_backend import numpy_backend
+    try:
+        np.percentile([1.0, 2.0], 50, interpolation="linear")
+    except TypeError:
+        if not getattr(numpy_backend.percentile, "_verif_compat", False):
+            def percentile(self, tensor_in, q, axis=None, interpolation="linear"):
+                return np.percentile(tensor_in, q, axis=axis, method=interpolation)
+            percentile._verif_compat = True
+            numpy_backend.percentile = percentile
+
+
 def _to_float(x):
     if isinstance(x, np.ndarray):
         x = x.reshape(()).item() if x.size == 1 else x
@@ -140,6 +154,7 @@ class Env:
         else:
             reset_pyhf("numpy", optimizer)
             self.backend = pyhf.tensorlib
+            _percentile_compat()
         return self.backend
 
     # ---- obligations --------------------------------------------------------------------------
